@@ -730,6 +730,8 @@ def _inline_helpers(fn, helpers: Dict[str, ast.AST], in_class: bool):
         return m
 
     def target_of(call):
+        if budget[0] <= 0:
+            return None
         f_ = call.func
         if isinstance(f_, ast.Name) and f_.id in helpers and not in_class_only.get(f_.id):
             return helpers[f_.id]
@@ -738,6 +740,25 @@ def _inline_helpers(fn, helpers: Dict[str, ast.AST], in_class: bool):
         return None
 
     in_class_only = {k: bool(getattr(v, "_is_method", False)) for k, v in helpers.items()}
+    # helpers that can reach themselves are never inlined, and the total number of inlinings is bounded
+    calls_of = {k: {c.func.id if isinstance(c.func, ast.Name) else c.func.attr for c in ast.walk(v) if isinstance(c, ast.Call) and isinstance(c.func, (ast.Name, ast.Attribute))}
+                for k, v in helpers.items()}
+
+    def reaches_itself(k):
+        seen, todo = set(), list(calls_of.get(k, ()))
+        while todo:
+            x = todo.pop()
+            if x == k:
+                return True
+            if x in seen or x not in calls_of:
+                continue
+            seen.add(x)
+            todo += list(calls_of[x])
+        return False
+
+    own = getattr(fn, "name", None)
+    helpers = {k: v for k, v in helpers.items() if not reaches_itself(k) and own not in calls_of.get(k, ()) and k != own}
+    budget = [60]
 
     def prepared(h, call, awaited: bool, dead_after=None):
         if isinstance(h, ast.AsyncFunctionDef) != awaited:
@@ -822,7 +843,9 @@ def _inline_helpers(fn, helpers: Dict[str, ast.AST], in_class: bool):
                     if isinstance(h, ast.AsyncFunctionDef) != (id(c) in aw) or not _early(s, anchor):
                         continue
                     tname = f"_t{next(counter)}"
-                    _replace_node(s, anchor, ast.Name(id=tname, ctx=ast.Load()))
+                    budget[0] -= 1
+                    if not _replace_node(s, anchor, ast.Name(id=tname, ctx=ast.Load())):
+                        continue
                     stmts.insert(0, s)
                     stmts.insert(0, ast.Assign(targets=[ast.Name(id=tname, ctx=ast.Store())], value=anchor))
                     hoisted = True
@@ -857,6 +880,7 @@ def _inline_helpers(fn, helpers: Dict[str, ast.AST], in_class: bool):
                     elif isinstance(s, ast.Assign) and falls:
                         new = None  # an implicit None on some path: keep the call
                     if new is not None:
+                        budget[0] -= 1
                         out.extend(f(new))
                         done = True
             if not done:
@@ -888,6 +912,7 @@ def _inline_helpers(fn, helpers: Dict[str, ast.AST], in_class: bool):
                                     out.append(ast.Assign(targets=[ast.Name(id=tname, ctx=ast.Store())], value=m[p]))
                                     m[p] = ast.Name(id=tname, ctx=ast.Load())
                             new_e = _subst(e, m)
+                            budget[0] -= 1
                             if id(c) in awaited_calls:
                                 # `await helper(...)` with `async def helper: return E`  ==  `E` evaluated in place (E holds its own awaits)
                                 aw = [n for n in ast.walk(s) if isinstance(n, ast.Await) and n.value is c][0]
